@@ -1,5 +1,6 @@
 import EaModel.Properties.C01
 import EaModel.Lemmas.Quiet
+import EaModel.Lemmas.Once
 /-!
 # C02 — no unauthorised and no duplicate execution
 
@@ -172,9 +173,48 @@ theorem control_leaves_other_jobs (env : Env) (now : Int) (en : Bool) (ops : Lis
     exact ⟨this, l, hl, hin⟩
   · exact Or.inl hr
 
+theorem mono_reachable (env : Env) (now : Int) (en : Bool) (ops : List Op) (hf : ∀ op ∈ ops, op.forward) :
+    Mono (runOps (initSt env now en) ops) := by
+  suffices h : ∀ (ops : List Op) (s : St), Inv s → Mono s → (∀ op ∈ ops, op.forward) → Mono (runOps s ops) by
+    refine h ops _ (inv_init env now en) ⟨fun i => ⟨?_, ?_, ?_, ?_⟩, fun i _ n _ d hd => ?_⟩ hf
+    · simp [duesOf, initSt]
+    · intro d hd; simp [duesOf, initSt] at hd
+    · intro _; simp [duesOf, initSt]
+    · intro hl; simp [initSt, St.job] at hl
+    · simp [duesOf, initSt] at hd
+  intro ops
+  induction ops with
+  | nil => intro s _ h _; exact h
+  | cons op ops ih =>
+    intro s hI h hf
+    exact ih _ (step_inv s op hI) (step_mono s op hI h (hf op (by simp))) (fun o ho => hf o (by simp [ho]))
+
+/-- At most one execution per announced run time: in every history in which the clock does not go back, the run
+times for which a job was executed (`duesOf i log`, newest first) are strictly increasing in time — each
+execution is for a later announced run time than every earlier execution of the same job; in particular no job
+is executed twice for the same announced run time. -/
+theorem one_execution_per_announcement (env : Env) (now : Int) (en : Bool) (ops : List Op)
+    (hf : ∀ op ∈ ops, op.forward) (i : Nat) :
+    (duesOf i (runOps (initSt env now en) ops).log).Pairwise (· > ·) ∧
+    ∀ d, (duesOf i (runOps (initSt env now en) ops).log).count d ≤ 1 := by
+  have h := ((mono_reachable env now en ops hf).w i).strict
+  refine ⟨h, fun d => ?_⟩
+  have hnd : (duesOf i (runOps (initSt env now en) ops).log).Nodup :=
+    h.imp (fun hab => by omega)
+  exact List.nodup_iff_count.1 hnd d
+
+/-- ... and a running job always reports a run time for which it has not been executed yet -/
+theorem reported_run_time_is_new (env : Env) (now : Int) (en : Bool) (ops : List Op)
+    (hf : ∀ op ∈ ops, op.forward) (i : Nat) (n : Int) :
+    let s := runOps (initSt env now en) ops
+    s.nr i = some n → ∀ d ∈ duesOf i s.log, d < n :=
+  fun hn => (mono_reachable env now en ops hf).b i id n hn
+
 -- non-vacuity: a paused job stays unexecuted over a sleep; a disabled scheduler with a due job
 #guard (runOps (initSt {} 0) [.create 1 none (.countdown 5) [] [], .reset 1, .stop 1, .sleep 10]).log.all
   fun e => match e with | .exec _ _ _ => false | _ => true
 #guard (runOps (initSt {} 0 false) [.create 1 none (.once 5) [] [], .sleep 10]).queue == [1]
+
+#guard duesOf 1 (runOps (initSt {} 0) [.create 1 none (.countdown 5) [] [], .reset 1, .sleep 10, .reset 1, .sleep 10]).log == [15, 5]
 
 end Ea.C02
